@@ -56,6 +56,13 @@ def chain_ok(chain):
 def fail_block(fk, pos, ind):
     lines = FAILS[fk][0]
     setup, last = lines[:-1], lines[-1]
+    pos, _, ctx = pos.partition("@")
+    if ctx and last.startswith("v = "):
+        # the failing expression in another statement context than an assignment
+        e = last[4:]
+        last = {"print": f"print {e}", "list": f"vl = [{e}]", "cond": f"if ({e}) == ({e}) {{\n" + "\t" * ind + "}",
+                "while-cond": f"while ({e}) != ({e}) {{\n" + "\t" * ind + "}", "assert": f"assert ({e}) == ({e})",
+                "interpolated": f'vs = "v" + ({e})'}[ctx]
     p = "\t" * ind
     out = [p + l for l in setup]
     if pos == "plain":
@@ -182,7 +189,8 @@ class C17(Check):
     rule = ("every (failure kind in {assert, get of nil, field of nil, list / string index, remove, zero divisor of each kind, % by 0, "
             "overflow (+, *, unary -), shift range, failed to_byte / to_int, substring range, map key}) x (call chain: all sequences of "
             "length 0..L over {plain function, closure, method, map callback, function of an imported module}) x (failing statement "
-            "plain / inside if / else / while / from).  Each frame prints a line before calling the next.  Non-trivial = chain length >= 1.")
+            "plain / inside if / else / while / from; for chains <= 1 also the failing expression as print argument, list element, if condition, "
+            "while condition, assert operand and string concatenation operand).  Each frame prints a line before calling the next.  Non-trivial = chain length >= 1.")
     assumptions = ["function labels are learnt from make_function/store pairs and method names in the loaded bytecode (hook H3), not guessed",
                    "block pseudo-frames (<if>, <else>, <while>, <native code>...) are dropped from the printed trace before comparison",
                    "stdout and stderr are captured through one pipe so that flush ordering is observable"]
@@ -201,7 +209,10 @@ class C17(Check):
         l1 = [(ch, fk, "plain") for ch in chains(2, 2) for fk in fails] + \
              [(ch, "assert", pos) for ch in chains(2, 2) for pos in POSITIONS[1:]]
         l2 = ((ch, fk, "if") for ch in chains(3, L) for fk in (fails if tier == "thorough" else ["assert", "div-int", "index", "overflow-add"]))
-        ls = [("L0-chains<=1-all-kinds-all-positions", l0), ("L1-chains=2", l1), (f"L2-chains-3..{L}", l2)]
+        ctxs = ["print", "list", "cond", "while-cond", "assert", "interpolated"]
+        l0b = [(ch, fk, "plain@" + cx) for ch in chains(0, 1) for fk in FAILS if FAILS[fk][0][-1].startswith("v = ") for cx in ctxs]
+        ls = [("L0-chains<=1-all-kinds-all-positions", l0), ("L0b-chains<=1-failing-expression-in-6-statement-contexts", l0b),
+              ("L1-chains=2", l1), (f"L2-chains-3..{L}", l2)]
         if tier == "thorough":
             deep = [k for k in FRAME_KINDS if k in ("fn", "method", "callback")]
             l3 = ((ch, fk, "plain") for n in (5, 6) for ch in itertools.product(deep, repeat=n) for fk in ["assert", "index", "div-int"])
